@@ -2,9 +2,9 @@
 # usage: try_seed.sh <patch.diff> <check id>...   applies the seeded change to /repo, runs the checks, reverts.
 set -u
 P="$1"; shift
-cd /repo && git apply "$P" || { echo "patch does not apply"; exit 2; }
+R=${VERIF_REPO:-/repo}; cd $R && git apply "$P" || { echo "patch does not apply"; exit 2; }
 for c in "$@"; do
   echo "---- $c"
   (cd /verif && ./check $c quick 2>&1 | grep -v "^KNOWN" | grep -E "^VIOLATION|^  rule|^#|HARNESS" | cut -c1-330 | head -8)
 done
-cd /repo && git checkout -- . && git status --short | head -3
+cd $R && git checkout -- . && git status --short | head -3
